@@ -17,8 +17,8 @@
 (***************************************************************************)
 EXTENDS Integers, Sequences
 
-B == 32768                       \* limb base, 2^15
-LB == 15                         \* bits per limb
+BASE == 32768                       \* limb base, 2^15
+LBITS == 15                         \* bits per limb
 
 -----------------------------------------------------------------------------
 \* Magnitudes
@@ -45,7 +45,7 @@ RECURSIVE MAddAt(_, _, _, _, _)
 MAddAt(a, b, i, n, c) ==
   IF i > n THEN (IF c = 0 THEN <<>> ELSE <<c>>)
   ELSE LET s == MLimb(a, i) + MLimb(b, i) + c
-       IN <<s % B>> \o MAddAt(a, b, i + 1, n, s \div B)
+       IN <<s % BASE>> \o MAddAt(a, b, i + 1, n, s \div BASE)
 
 MAdd(a, b) == MAddAt(a, b, 1, IF Len(a) > Len(b) THEN Len(a) ELSE Len(b), 0)
 
@@ -54,23 +54,23 @@ RECURSIVE MSubAt(_, _, _, _)
 MSubAt(a, b, i, br) ==
   IF i > Len(a) THEN <<>>
   ELSE LET d == a[i] - MLimb(b, i) - br
-       IN IF d < 0 THEN <<d + B>> \o MSubAt(a, b, i + 1, 1)
+       IN IF d < 0 THEN <<d + BASE>> \o MSubAt(a, b, i + 1, 1)
                    ELSE <<d>> \o MSubAt(a, b, i + 1, 0)
 
 MSub(a, b) == MTrim(MSubAt(a, b, 1, 0))
 
-\* a * d for a small number 0 <= d <= B
+\* a * d for a small number 0 <= d <= BASE
 RECURSIVE MMulSmallAt(_, _, _, _)
 MMulSmallAt(a, d, i, c) ==
   IF i > Len(a) THEN (IF c = 0 THEN <<>> ELSE <<c>>)
   ELSE LET p == a[i] * d + c
-       IN <<p % B>> \o MMulSmallAt(a, d, i + 1, p \div B)
+       IN <<p % BASE>> \o MMulSmallAt(a, d, i + 1, p \div BASE)
 
 MMulSmall(a, d) == IF d = 0 THEN <<>> ELSE MMulSmallAt(a, d, 1, 0)
 
 MZeros(k) == [i \in 1..k |-> 0]
 
-\* a * B^k
+\* a * BASE^k
 MShiftLimbs(a, k) == IF a = <<>> THEN a ELSE MZeros(k) \o a
 
 RECURSIVE MMulAt(_, _, _)
@@ -80,30 +80,30 @@ MMulAt(a, b, j) ==
 
 MMul(a, b) == IF a = <<>> \/ b = <<>> THEN <<>> ELSE MMulAt(a, b, 1)
 
-\* floor(a / d), a mod d for a small number 1 <= d <= B
+\* floor(a / d), a mod d for a small number 1 <= d <= BASE
 RECURSIVE MDivSmallAt(_, _, _, _)
 MDivSmallAt(a, d, i, r) ==
   IF i = 0 THEN <<>>
-  ELSE LET cur == r * B + a[i]
+  ELSE LET cur == r * BASE + a[i]
        IN MDivSmallAt(a, d, i - 1, cur % d) \o <<cur \div d>>
 
 MDivSmall(a, d) == MTrim(MDivSmallAt(a, d, Len(a), 0))
 
 RECURSIVE MModSmallAt(_, _, _, _)
-MModSmallAt(a, d, i, r) == IF i = 0 THEN r ELSE MModSmallAt(a, d, i - 1, (r * B + a[i]) % d)
+MModSmallAt(a, d, i, r) == IF i = 0 THEN r ELSE MModSmallAt(a, d, i - 1, (r * BASE + a[i]) % d)
 
 MModSmall(a, d) == MModSmallAt(a, d, Len(a), 0)
 
 \* bit k (k >= 0) of a magnitude
-MBit(a, k) == (MLimb(a, k \div LB + 1) \div 2^(k % LB)) % 2
+MBit(a, k) == (MLimb(a, k \div LBITS + 1) \div 2^(k % LBITS)) % 2
 
 RECURSIVE SmallBitLen(_)
 SmallBitLen(x) == IF x = 0 THEN 0 ELSE 1 + SmallBitLen(x \div 2)
 
-MBitLen(a) == IF a = <<>> THEN 0 ELSE (Len(a) - 1) * LB + SmallBitLen(a[Len(a)])
+MBitLen(a) == IF a = <<>> THEN 0 ELSE (Len(a) - 1) * LBITS + SmallBitLen(a[Len(a)])
 
 \* 2^k as a magnitude
-MPow2(k) == MZeros(k \div LB) \o <<2^(k % LB)>>
+MPow2(k) == MZeros(k \div LBITS) \o <<2^(k % LBITS)>>
 
 \* <<quotient, remainder>> of a / b (b # 0), reference definition: restoring
 \* division, one bit of the dividend at a time from the most significant one.
@@ -122,7 +122,7 @@ MDivModRef(a, b) == IF MCmp(a, b) < 0 THEN <<(<<>>), a>>
 
 \* <<quotient, remainder>> of a / b (b # 0): school-book long division in base
 \* 2^15 (Knuth, TAOCP 4.3.1 algorithm D).  Both operands are first scaled by
-\* d = 2^s so that the top limb of the divisor is >= B/2; then the trial digit
+\* d = 2^s so that the top limb of the divisor is >= BASE/2; then the trial digit
 \* computed from the two leading limbs exceeds the true digit by at most 2 and
 \* is corrected downwards.  The quotient is unchanged by the scaling and the
 \* remainder is divided by d at the end.
@@ -133,7 +133,7 @@ MTrialDigit(bb, r) ==
   LET n == Len(bb)
   IN IF Len(r) < n THEN 0
      ELSE IF Len(r) = n THEN r[n] \div bb[n]
-     ELSE LET t == (r[n + 1] * B + r[n]) \div bb[n] IN IF t > B - 1 THEN B - 1 ELSE t
+     ELSE LET t == (r[n + 1] * BASE + r[n]) \div bb[n] IN IF t > BASE - 1 THEN BASE - 1 ELSE t
 
 \* digits i..1 of the dividend aa still to be brought down; r = current remainder
 RECURSIVE MLongDivAt(_, _, _, _)
@@ -147,15 +147,15 @@ MLongDivAt(aa, bb, i, r) ==
 
 MDivMod(a, b) ==
   IF MCmp(a, b) < 0 THEN <<(<<>>), a>>
-  ELSE LET d  == 2^(LB - SmallBitLen(b[Len(b)]))
+  ELSE LET d  == 2^(LBITS - SmallBitLen(b[Len(b)]))
            qr == MLongDivAt(MMulSmall(a, d), MMulSmall(b, d), Len(MMulSmall(a, d)), <<>>)
        IN <<MTrim(qr[1]), MDivSmall(qr[2], d)>>
 
 \* floor(a / 2^k)
 MShr(a, k) ==
-  LET w == k \div LB
+  LET w == k \div LBITS
   IN IF w >= Len(a) THEN <<>>
-     ELSE MDivSmall(SubSeq(a, w + 1, Len(a)), 2^(k % LB))
+     ELSE MDivSmall(SubSeq(a, w + 1, Len(a)), 2^(k % LBITS))
 
 -----------------------------------------------------------------------------
 \* Signed integers
@@ -247,11 +247,11 @@ BitNot(a)    == BitXor(a, MinusOne)
 
 \* TLC native integer (|i| < 2^31) to a number and back (small numbers only)
 RECURSIVE MFromNat(_)
-MFromNat(i) == IF i = 0 THEN <<>> ELSE <<i % B>> \o MFromNat(i \div B)
+MFromNat(i) == IF i = 0 THEN <<>> ELSE <<i % BASE>> \o MFromNat(i \div BASE)
 FromInt(i) == IF i < 0 THEN Mk(TRUE, MFromNat(-i)) ELSE Mk(FALSE, MFromNat(i))
 
 RECURSIVE MToNatAt(_, _)
-MToNatAt(m, i) == IF i > Len(m) THEN 0 ELSE m[i] + B * MToNatAt(m, i + 1)
+MToNatAt(m, i) == IF i > Len(m) THEN 0 ELSE m[i] + BASE * MToNatAt(m, i + 1)
 ToInt(a) == IF a.n THEN -MToNatAt(a.m, 1) ELSE MToNatAt(a.m, 1)
 FitsNative(a) == MBitLen(a.m) <= 30
 
@@ -273,7 +273,7 @@ MFromDigits(ds, radix) == MFromDigitsAt(ds, radix, 1, <<>>)
 \* well-formedness of a number record (used on values that arrive as JSON)
 IsNum(a) ==
   /\ a.n \in BOOLEAN
-  /\ \A i \in 1..Len(a.m) : a.m[i] \in 0..(B - 1)
+  /\ \A i \in 1..Len(a.m) : a.m[i] \in 0..(BASE - 1)
   /\ (a.m # <<>> => a.m[Len(a.m)] # 0)
   /\ (a.m = <<>> => ~a.n)
 =============================================================================
